@@ -51,6 +51,8 @@ def build(case):
         if name in vals:
             kind = "output" if name == case["states"][0][0] else "variable"
             variables[name] = f"{kind}({float(Fr(vals[name]))!r})"
+        elif name in case.get("int_params", []):
+            variables[name] = int(Fr(pvals[name]))            # default written as a Python int (a = 2)
         else:
             variables[name] = float(Fr(pvals[name]))
     op = OperatorTemplate(name="op", equations=eq_strings(case), variables=variables, path=None)
@@ -161,6 +163,19 @@ def impl(case):
         fb.subprocess = real_sp
         reset_pyrates()
 
+def impl_reject(case):
+    """requests that _generate_auto_files must refuse loudly (ValueError) before anything is compiled"""
+    from pyr import reset_pyrates
+    reset_pyrates()
+    try:
+        build(case).get_run_func("vfx", step_size=1e-3, file_name="r" + case["id"], backend="fortran", float_precision="float64",
+                                 auto=True, vectorize=False, solver="scipy", **case["kwargs"])
+        return dict(rejected=False)
+    except Exception as e:
+        return dict(rejected=True, type=type(e).__name__, msg=str(e)[:160])
+    finally:
+        reset_pyrates()
+
 def impl_slots(case):
     """E2 validation: the Python functions themselves, without a backend object"""
     import types
@@ -226,7 +241,11 @@ def gen_case(rng, cid, n=None, compile_=False, inexact=False):
         over["NPAR"] = rng.choice([36, 40])
     if rng.random() < 0.08:
         over["NDIM"] = ns + 1
-    return dict(id=str(cid), decl=decl, states=[[s, val()] for s in states], params=[[p, val()] for p in names], eqs=eqs,
+    # C18_INT_PARAMS=1: some defaults are Python ints.  Off by default: on the unchanged tree every such model fails to compile
+    # (loud RuntimeError from f2py, `integer :: a(1)`; repair proposed in fixes/fix_D1xx_C18_int_params.diff)
+    ints = [p for p in names if os.environ.get("C18_INT_PARAMS") == "1" and not inexact and rng.random() < 0.3]
+    pvals = [[p, (str(rng.choice([-3, -2, -1, 1, 2, 3])) if p in ints else val())] for p in names]
+    return dict(id=str(cid), decl=decl, states=[[s, val()] for s in states], params=pvals, int_params=ints, eqs=eqs,
                 scenarios=scen, scen_as_str=bool(scen and len(scen) == 1 and rng.random() < 0.5), overrides=over, compile=compile_,
                 y_test=[str(Fr(rng.choice([-5, -3, 3, 5, 7]), 16)) for _ in states],
                 par_test=[str(Fr(k + 3, 8)) for k in range(NPARX)])
@@ -737,6 +756,17 @@ def check(ctx):
         else:
             cases += [gen_case(ctx.rng, k + i, compile_=True, inexact=True) for i in range(6)]            # values that are not binary32 numbers (was the guard-violating stream before D65)
     e2_cases, bad_tr, bad_cf, dup = ([], [], [], []) if ctx.replay else e2_streams(ctx)
+    if not ctx.replay:      # loud refusals: unknown scenario, DSL and raw Fortran residuals given together
+        base = gen_case(ctx.rng, "rej", n=3)
+        rej = [dict(base, id=f"rej{i}", kwargs=kw) for i, kw in enumerate([
+            dict(auto_constants=("ivp", "nosuchscenario")),
+            dict(boundary_conditions=["u0_x - u1_x"], bcnd_fortran="fb(1) = u0(1) - u1(1)", nbc=1),
+            dict(integral_constraints=["u_x"], icnd_fortran="fi(1) = u(1)", nint=1)])]
+        for c, o in zip(rej, run_impl(ctx, "c18", "impl_reject", rej, nworkers=1, per_case_timeout=120)):
+            if not (o.get("rejected") and o.get("type") == "ValueError"):
+                violation(ctx, write_replay(ctx, "counterexample", dict(what="a request that the auto export must refuse with ValueError was not refused",
+                                                                         request=c["kwargs"], implementation_output=o)))
+        ctx.note(f"rejections: {len(rej)} malformed auto requests refused with ValueError")
     if bad_cf:   # the slot function itself left the closed form: the smallest parameter count is the replay, and the hint for shrinking models
         c, o = min(bad_cf, key=lambda co: co[0]["n"])
         ctx.c18_hint = c["n"]
